@@ -38,8 +38,7 @@ def is_read(e):
     return e[0] == "call" and e[1] == READ
 
 
-def loop_protocol(ctx, F):
-    r = "R-12.1"
+def loop_protocol(ctx, F, r="R-12.1"):
     ctx.rule(r, "read-loop protocol: one read into the whole buffer; Ok(n>0) -> update(buffer[0..n]); exit only on n==0 or error; "
                 "Interrupted retried; other errors -> IOError(e); single finalize")
     bs = [b for b in F.bodies if b.kind == "Fn" and any(engine_path(t) == READ for _, t in b.calls())]
